@@ -68,6 +68,7 @@ template <typename T> struct fut_round {
     std::optional<cocls::promise<T>> prom;
     int ncont = 0, nwait = 0;
     int action[4] = {}, wkind[3] = {};
+    int entry[4] = {}; // which of the equivalent promise entry points the contender uses (operator() / set_value / set_exception / unhandled_exception)
     std::atomic<int> res[4];
     bool consumed[4] = {};
     std::atomic<int> done{0};
@@ -107,14 +108,26 @@ template <typename T> void f_contender(fut_round<T> &X, int c) {
     int r = -1;
     switch (X.action[c]) {
     case FA_VALUE:
-        if constexpr (std::is_void_v<T>) r = (bool)p();
-        else if constexpr (std::is_reference_v<T>) r = (bool)p(X.target[c]);
-        else if constexpr (std::is_same_v<T, int>) r = (bool)p((int)id);
-        else if constexpr (std::is_same_v<T, tracked_mo>) { tracked_mo a(id); r = (bool)p(std::move(a)); X.consumed[c] = a.moved(); }
-        else r = (bool)p(id);
+        if (X.entry[c] == 0) {
+            if constexpr (std::is_void_v<T>) r = (bool)p();
+            else if constexpr (std::is_reference_v<T>) r = (bool)p(X.target[c]);
+            else if constexpr (std::is_same_v<T, int>) r = (bool)p((int)id);
+            else if constexpr (std::is_same_v<T, tracked_mo>) { tracked_mo a(id); r = (bool)p(std::move(a)); X.consumed[c] = a.moved(); }
+            else r = (bool)p(id);
+        } else { // the named entry point
+            if constexpr (std::is_void_v<T>) r = (bool)p.set_value();
+            else if constexpr (std::is_reference_v<T>) r = (bool)p.set_value(X.target[c]);
+            else if constexpr (std::is_same_v<T, int>) r = (bool)p.set_value((int)id);
+            else if constexpr (std::is_same_v<T, tracked_mo>) { tracked_mo a(id); r = (bool)p.set_value(std::move(a)); X.consumed[c] = a.moved(); }
+            else r = (bool)p.set_value(id);
+        }
         break;
-    case FA_EXC: r = (bool)p(vf::make_exc((int)id)); break;
-    case FA_DROP: r = (bool)p(cocls::drop); break;
+    case FA_EXC:
+        if (X.entry[c] == 0) r = (bool)p(vf::make_exc((int)id));
+        else if (X.entry[c] == 1) r = (bool)p.set_exception(vf::make_exc((int)id));
+        else { try { throw vf::test_exc{(int)id}; } catch (...) { r = p.unhandled_exception(); } } // "capture current exception"
+        break;
+    case FA_DROP: r = X.entry[c] == 0 ? (bool)p(cocls::drop) : (bool)p.set_value(cocls::drop); break;
     default: break;
     }
     X.res[c].store(r, std::memory_order_relaxed);
@@ -190,7 +203,8 @@ void future_round(const vf::opts &o, vf::report &R, vf::team &T_, uint64_t rn, u
     for (int c = 0; c < X.ncont; c++) {
         uint32_t x = r.below(10);
         X.action[c] = abstain_all ? FA_NONE : (x < 5 ? FA_VALUE : x < 7 ? FA_EXC : x < 9 ? FA_DROP : FA_NONE);
-        desc += std::string(fa_name(X.action[c])) + ",";
+        X.entry[c] = (int)r.below(3);
+        desc += std::string(fa_name(X.action[c])) + (X.entry[c] == 0 ? "" : X.action[c] == FA_EXC ? (X.entry[c] == 1 ? "[set_exception]" : "[unhandled_exception]") : X.action[c] == FA_NONE ? "" : "[set_value]") + ",";
     }
     desc += " W:";
     for (int w = 0; w < X.nwait; w++) { X.wkind[w] = (int)r.below(FW_NKINDS); desc += std::string(fw_name(X.wkind[w])) + ","; }
